@@ -11,7 +11,7 @@ META = {
     "level": "exploration",
     "rule": ("case = generated type descriptor (JSON); distinct by JSON; non-trivial when nesting "
              "depth >= 2 or it contains an extension type whose definition has a from-params bound"),
-    "required": ["monitor:type_bound", "monitor:wire-bound", "monitor:static-array-reject",
+    "required": ["monitor:type_bound", "monitor:reused-type", "monitor:wire-bound", "monitor:static-array-reject",
                  "monitor:static-array-accept", "monitor:join", "feature:from-params",
                  "feature:bound-A", "feature:bound-C"],
     "reach": ["hugr.tys:Sum.type_bound", "hugr.tys:ExtType.type_bound", "hugr.tys:ExtType._to_opaque"],
@@ -91,6 +91,54 @@ def check_type(ctx, d, stratum="type"):
                  stratum=stratum, case=d)
 
 
+def check_reused(ctx, c):
+    """one extension-type object whose arguments are replaced between two uses: the reported and the
+    written bound must be those of the arguments it has now (nothing derived may be remembered)"""
+    from vf.gen.types import Builder, ref_bound, wire_ty
+
+    B = Builder()
+    d1, d2 = c["d1"], c["d2"]
+    t = B.ty(d1)
+    t2 = B.ty(d2)
+    ctx.count("monitor:reused-type")
+    for step in c["first"]:
+        if step == "bound":
+            t.type_bound()
+        else:
+            t._to_serial_root().model_dump(mode="json")
+    how = c["how"]
+    if how == "rebind":
+        t.args = list(t2.args)
+    elif how == "slice":
+        t.args[:] = t2.args
+    else:
+        for i, a in enumerate(t2.args):
+            t.args[i] = a
+    exp = ref_bound(d2)
+    got = t.type_bound().value
+    if got != exp:
+        ctx.disc(None, "reused-type-bound", d2[0], exp, got, stratum="reused", case=c)
+    ob = opaque_bounds(t._to_serial_root().model_dump(mode="json"), [])
+    eb = opaque_bounds(wire_ty(d2), [])
+    if ob != eb:
+        ctx.disc(None, "reused-wire-bound", d2[0], eb, ob, stratum="reused", case=c)
+
+
+def gen_reused(r, g):
+    k = r.choice(["ext", "ext", "list", "array"])
+    if k == "ext":
+        df = g.typedef()
+        d1 = ["ext", df, [g.arg_for(p, 1) for p in df["params"]]]
+        d2 = ["ext", df, [g.arg_for(p, 1) for p in df["params"]]]
+    elif k == "list":
+        d1, d2 = ["list", g.ty(1)], ["list", g.ty(1)]
+    else:
+        n = r.randint(0, 3)
+        d1, d2 = ["array", n, g.ty(1)], ["array", n, g.ty(1)]
+    return {"d1": d1, "d2": d2, "how": r.choice(["rebind", "slice", "each"]),
+            "first": r.choice([["bound"], ["wire"], ["bound", "wire"], ["wire", "wire"], []])}
+
+
 def check_join(ctx, bs):
     from hugr.tys import TypeBound
 
@@ -115,6 +163,13 @@ def run(ctx):
             ctx.feat("feature:from-params")
         ctx.case("type", d, depth(d) >= 2 or fp)
         ctx.guard("type", d, check_type, ctx, d)
+    from vf.gen.types import ref_bound
+
+    for i in ctx.mine(ctx.n(4000, 100000)):
+        r = ctx.rng("reused", i)
+        c = gen_reused(r, Gen(r, allow_vars=False))
+        ctx.case("reused", c, ref_bound(c["d1"]) != ref_bound(c["d2"]) and bool(c["first"]))
+        ctx.guard("reused", c, check_reused, ctx, c)
     for i in ctx.mine(ctx.n(2000, 20000)):
         r = ctx.rng("join", i)
         bs = [r.choice("CCA") for _ in range(r.randint(0, 6))]
@@ -125,5 +180,7 @@ def run(ctx):
 def replay(ctx, rec):
     if rec.get("stratum") == "join":
         check_join(ctx, rec["case"])
+    elif rec.get("stratum") == "reused":
+        check_reused(ctx, rec["case"])
     else:
         check_type(ctx, rec["case"])
